@@ -461,6 +461,8 @@ func c14FieldNameMap(r *rng) {
 	out.emit(1402, t...)
 }
 
+var c14decoyVal = make([]int64, 0, 1<<16)
+
 // ---- 1403: caching.TrieTree / caching.HashMap directly ---------------------------------------------------
 
 func c14Direct(r *rng) {
@@ -486,6 +488,31 @@ func c14Direct(r *rng) {
 		for i, k := range keys {
 			vals[i] = int64(i + 1)
 			tr.Set(string(k), unsafe.Pointer(&vals[i]))
+		}
+		// deterministic witness of the native off-by-one (finding 1403): re-home the root index into an array that is followed
+		// by a foreign node holding a probe key whose bucket equals len(index); the Go Get never looks at it
+		if np == 1 && len(tr.Index) > 0 && len(tr.Index) < 255 && r.chance(40) {
+			l := len(tr.Index)
+			var c int = -1
+			for b := 0; b < 256; b++ {
+				if int(caching.VerifAscii2Int(byte(b))) == l {
+					c = b
+				}
+			}
+			if c >= 0 {
+				decoy := make([]byte, ps[0]+1)
+				for i := range decoy {
+					decoy[i] = 'q'
+				}
+				decoy[ps[0]] = byte(c)
+				big := make([]caching.TrieNode, l+1)
+				copy(big, tr.Index)
+				c14decoyVal = append(c14decoyVal, 777)
+				other := []caching.Pair{{Val: unsafe.Pointer(&c14decoyVal[len(c14decoyVal)-1]), Key: string(decoy)}}
+				big[l].Leaves = &other
+				tr.Index = big[:l:l]
+				probes = append(probes, decoy)
+			}
 		}
 		t.i(0)
 		t.i(np)
